@@ -36,6 +36,39 @@ type PubReq struct {
 	// Scoped: endpoint-scoped (managed) publish POST /applications/{app}/endpoints/{name}/messages/publish
 	ScopedApp string `json:"scoped_app,omitempty"`
 	ScopedEP  string `json:"scoped_ep,omitempty"`
+	Actor     bool   `json:"actor,omitempty"`      // send X-Hookaido-Audit-Actor
+	RequestID bool   `json:"request_id,omitempty"` // send X-Request-ID
+}
+
+// pubPolicy: the defaults.publish_policy switches of the configuration (documented defaults: everything allowed, nothing required).
+type pubPolicy struct {
+	directOff, managedOff, pullOff, deliverOff, needActor, needRequestID bool
+}
+
+func (s *SysSpec) pubPolicy() pubPolicy {
+	var p pubPolicy
+	for _, l := range s.PublishPolicy {
+		switch strings.Join(strings.Fields(l), " ") {
+		case "direct off":
+			p.directOff = true
+		case "managed off":
+			p.managedOff = true
+		case "allow_pull_routes off":
+			p.pullOff = true
+		case "allow_deliver_routes off":
+			p.deliverOff = true
+		case "require_actor on":
+			p.needActor = true
+		case "require_request_id on":
+			p.needRequestID = true
+		}
+	}
+	return p
+}
+
+// modeForbidden: the global policy does not permit manual publish to routes of this mode.
+func (p pubPolicy) modeForbidden(r *RouteSpec) bool {
+	return (p.pullOff && r.PullPath != "") || (p.deliverOff && len(r.Deliver) > 0)
 }
 
 type AdminMut struct {
@@ -102,6 +135,17 @@ func (w *PublishWorld) adminHeaders(token string, reason bool) []KV {
 	return h
 }
 
+func (w *PublishWorld) pubHeaders(pr *PubReq) []KV {
+	h := w.adminHeaders(pr.Token, !pr.NoReason)
+	if pr.Actor {
+		h = append(h, KV{"X-Hookaido-Audit-Actor", "verif-operator"})
+	}
+	if pr.RequestID {
+		h = append(h, KV{"X-Request-ID", "req-verif-1"})
+	}
+	return h
+}
+
 // itemVerdict: reference validation of one item (nil = acceptable); returns the
 // envelope the item stands for.
 func (w *PublishWorld) itemVerdict(it *PubItem, id string, seen map[string]bool, scoped ...*RouteSpec) (string, *queue.Envelope) {
@@ -129,6 +173,9 @@ func (w *PublishWorld) itemVerdict(it *PubItem, id string, seen map[string]bool,
 		}
 		if r.App != "" {
 			return "managed_route", nil
+		}
+		if w.Spec.pubPolicy().modeForbidden(r) {
+			return "route_mode_forbidden", nil
 		}
 	}
 	targets := r.targets()
@@ -255,13 +302,17 @@ func (w *PublishWorld) Publish(pr *PubReq) {
 			}
 		}
 		switch {
+		case w.Spec.pubPolicy().managedOff:
+			scopedRefused = 403
 		case scopedRoute == nil:
 			scopedRefused = 404
-		case scopedRoute.PublishOff || scopedRoute.ManagedOff:
+		case scopedRoute.PublishOff || scopedRoute.ManagedOff || w.Spec.pubPolicy().modeForbidden(scopedRoute):
 			scopedRefused = 403
 		}
+	} else if w.Spec.pubPolicy().directOff {
+		scopedRefused = 403 // the global direct path is switched off
 	}
-	req, err := NewRequest("POST", path, "admin.internal", "127.0.0.1:9", w.adminHeaders(pr.Token, !pr.NoReason), b, pr.Chunked)
+	req, err := NewRequest("POST", path, "admin.internal", "127.0.0.1:9", w.pubHeaders(pr), b, pr.Chunked)
 	if err != nil {
 		return
 	}
@@ -292,10 +343,10 @@ func (w *PublishWorld) Publish(pr *PubReq) {
 		return
 	}
 	if scopedRefused != 0 {
-		// the endpoint does not exist, or its route does not permit managed publish
-		w.Res.probe(fmt.Sprintf("publish.scoped.refused.%d", scopedRefused))
+		// the endpoint does not exist, its route does not permit managed publish, or the path is switched off by policy
+		w.Res.probe(fmt.Sprintf("publish.path.refused.%d", scopedRefused))
 		if resp.Status >= 200 && resp.Status < 300 {
-			w.add("C15.accepted.invalid", "C15", loc, "endpoint-scoped publish to %s/%s was accepted although the reference says %d", pr.ScopedApp, pr.ScopedEP, scopedRefused)
+			w.add("C15.accepted.invalid", "C15", loc, "publish (endpoint %s/%s) was accepted although the reference says %d (publish policy %v)", pr.ScopedApp, pr.ScopedEP, scopedRefused, w.Spec.PublishPolicy)
 			w.adoptAll(now)
 		}
 		return
@@ -317,7 +368,11 @@ func (w *PublishWorld) Publish(pr *PubReq) {
 		}
 		envs = append(envs, *env)
 	}
-	reqInvalid := pr.NoReason || pr.Unknown || len(pr.Items) == 0
+	pol := w.Spec.pubPolicy()
+	reqInvalid := pr.NoReason || pr.Unknown || len(pr.Items) == 0 || (pol.needActor && !pr.Actor) || (pol.needRequestID && !pr.RequestID)
+	if (pol.needActor && !pr.Actor) || (pol.needRequestID && !pr.RequestID) {
+		w.Res.probe("publish.audit_identity_missing")
+	}
 	if reqInvalid || len(invalid) > 0 {
 		w.Res.probe("publish.reference.reject")
 		for _, k := range kinds {
@@ -734,6 +789,16 @@ func GenPublishProgram(t *rapid.T, mutations bool) *Program {
 		spec.MaxDepth = rapid.IntRange(1, 5).Draw(t, "max_depth")
 		spec.DropPolicy = rapid.SampledFrom([]string{"reject", "drop_oldest"}).Draw(t, "drop")
 	}
+	if rapid.IntRange(0, 2).Draw(t, "policy?") == 1 {
+		// defaults.publish_policy switches (one or two)
+		all := []string{"direct off", "managed off", "allow_pull_routes off", "allow_deliver_routes off", "require_actor on", "require_request_id on"}
+		spec.PublishPolicy = append(spec.PublishPolicy, rapid.SampledFrom(all).Draw(t, "policy.1"))
+		if rapid.Bool().Draw(t, "policy.two") {
+			if l := rapid.SampledFrom(all).Draw(t, "policy.2"); l != spec.PublishPolicy[0] {
+				spec.PublishPolicy = append(spec.PublishPolicy, l)
+			}
+		}
+	}
 	sys := publishSys{Spec: spec}
 	n := rapid.IntRange(2, 16).Draw(t, "nsteps")
 	for i := 0; i < n; i++ {
@@ -809,6 +874,8 @@ func GenPublishProgram(t *rapid.T, mutations bool) *Program {
 				pr.Unknown = true
 			}
 			pr.Chunked = rapid.IntRange(0, 4).Draw(t, "chunked") == 0
+			pr.Actor = rapid.IntRange(0, 3).Draw(t, "actor") != 1
+			pr.RequestID = rapid.IntRange(0, 3).Draw(t, "reqid") != 1
 			sys.Pubs = append(sys.Pubs, pr)
 			p.Steps = append(p.Steps, Step{Op: "publish", Batch: len(sys.Pubs) - 1})
 		case k < 17 && mutations:
